@@ -1,5 +1,7 @@
 CONSTANTS
   GlyphCounts = {1, 2, 30, 255, 256, 257}
+  IdxLens = {254, 255, 256, 257}
+  Dense = FALSE
   Focus = "random"
 INIT Init
 NEXT Next
